@@ -7,4 +7,5 @@
 pub mod circuit;
 pub mod gate;
 pub mod linalg;
+pub mod openqasm;
 pub mod phase;
